@@ -35,8 +35,12 @@ CHECKS = {
          "Every request of the grammar product (about 62 000 per server state, plus limit-sized bodies generated lazily) is sent through the real app on in-memory and SQLite servers holding non-trivial and empty state: never 5xx or panic; malformed in any dimension => 4xx and stored state identical (no writing storage call, else full dump compare); exactly-limit bodies accepted, limit+1 refused.", "4.2, 5/C15"),
  "C16": ("E-HTTP+E-SEQ", "model_checking", "exhaustive request-grammar product under allow-lists {none, empty, {A}, {A,B}} with a storage-access counter; listed clients explored by BFS in lock step with a list-less twin",
          "For every allow-list shape and every request of the grammar: unlisted and otherwise well-formed => exactly 403, unlisted and malformed => 4xx, zero storage transactions in both cases (counted at the Storage trait), listed or list-less => never 403. Listed clients' histories are explored by E-SEQ on allow-listed servers in lock step with list-less twins and must answer identically.", "4.2, 5/C16"),
+ "C17": ("E-BIN", "exploration", "exhaustive enumeration of launch configurations of the real executable (flag / comma list / environment for every option), scripted protocol session over real TCP on every listen address, SIGKILL + restart, urgency compared with the model",
+         "Model checking's exhaustive enumeration applied to the configuration space: the executable built from /repo is launched for every configuration (quick: one dimension at a time and all-flag / all-env; thorough: the full product of listen-address sets x how given x data dir x allow-list x snapshot targets), driven over loopback TCP on every configured address, its snapshot aged from outside, killed with SIGKILL and restarted on the same directory. Oracle: every address serves; the database lives in the given directory and the restarted server serves the same history byte for byte; exactly the listed ids are served (403 otherwise, on all four endpoints); X-Snapshot-Request follows the reference model for the configured targets. Processes and sockets are not under a scheduler, hence level exploration.", "5/C17"),
  "C18": ("E-SEQ", "model_checking", "explicit-state BFS; complete dump (raw tables + API view) compared before/after every non-mutating outcome",
          "Every read, conflicting AddVersion and declined AddSnapshot in every reachable state within the bound is bracketed by complete dumps (raw SQLite tables and API view) which must be identical.", "4.1, 5/C18"),
+ "C19": ("E-CORPUS", "exploration", "every data directory of a committed corpus written by the pinned tree (all canonical states of the quick exploration bound + crash images with leftover WAL + large payloads) opened by the current code, dumped, and continued by the E-SEQ explorer",
+         "406 data directories written by the pinned commit a6bc6ed (every canonical state reached by the history exploration at its quick bound, plus clean and killed-mid-write directories with 10 KB - 1 MB payloads and a leftover write-ahead log) are opened by the current code on three implementations; the complete stored content must equal the recorded expectation and the E-SEQ explorer continues every history from there (every request of the alphabet; thorough: two steps deep). Exhaustive over the corpus only, hence level exploration.", "5/C19"),
  "C20": ("E-HTTP+E-SEQ", "model_checking", "Cache-Control monitor on every response of the exhaustive request-grammar product and of the BFS over histories (all routes, methods, outcomes, refusals, unknown routes)",
          "Every response produced by the grammar product (all routes, methods, malformed variants, unknown routes, allow-list refusals) and by the history exploration through both HTTP implementations must carry Cache-Control containing no-store.", "4.2, 5/C20"),
 }
@@ -64,7 +68,7 @@ def main():
     na = [{"property_id": p, "reason": NOT_YET.get(p, "check not built yet in this revision of /verif (planned engine in DESIGN.md section 5); not claimed until it runs")} for p in props if p not in CHECKS]
     m = {
         "version": 1,
-        "setup_cmd": "cd /verif/harness && CARGO_NET_OFFLINE=true cargo build --release --offline",
+        "setup_cmd": "cd /verif/harness && CARGO_NET_OFFLINE=true cargo build --release --offline && cd /repo && CARGO_NET_OFFLINE=true CARGO_TARGET_DIR=/verif/target/repo-bin cargo build --release --offline -p taskchampion-sync-server --bin taskchampion-sync-server",
         "hooks": {
             "guard": "cargo feature `verif-hooks` of crate taskchampion-sync-server-core",
             "enable": "the harness depends on /repo/core by path with features=[\"verif-hooks\"]; cargo feature unification turns it on for /repo/sqlite and /repo/server too",
@@ -74,6 +78,8 @@ def main():
             "add_only": True,
         },
         "engines": [
+            {"name": "E-BIN", "path": "harness/src/ebin.rs", "serves_properties": ["C17"], "kind_free_text": "exhaustive configuration product against the real executable over loopback TCP"},
+            {"name": "E-CORPUS", "path": "harness/src/ecorpus.rs + fixtures/pinned + tools/gen_corpus.sh", "serves_properties": ["C19"], "kind_free_text": "committed corpus of data directories written by the pinned tree; opened, compared and continued by the current code"},
             {"name": "E-SCHED", "path": "harness/src/sched.rs + harness/src/esched.rs", "serves_properties": ["C03", "C11"], "kind_free_text": "own controlled scheduler over real OS threads running the real code; preemption-bounded DFS; linearizability oracle"},
             {"name": "E-CRASH", "path": "harness/src/ecrash.rs", "serves_properties": ["C04"], "kind_free_text": "VFS operation log -> exhaustive crash images -> recovery by the real code"},
             {"name": "E-FAULT", "path": "harness/src/efault.rs", "serves_properties": ["C05"], "kind_free_text": "exhaustive single/double fault plans at the storage-trait seam and at the VFS"},
